@@ -1028,14 +1028,18 @@ def search(ob, wit=None):
         return check_sniffers("get_image_dimensions", model_files(wit))
     if "/numbering#counter-starts" in ob:
         return witness("numbering-per-unit", fmt)
-    if "/numbering#" in ob:
+    if "/numbering#one-increment" in ob:
         for k in ("gap-missing", "corrupt-member", "pdf-bad-candidate"):
             if (k == "pdf-bad-candidate") != (fmt == "pdf"):
                 continue
             r = witness(k, fmt)
             if r:
                 return r
-        return sweep(fmt, ("numbering",))
+        # gaps / double numbers inside one unit (numbering across units is the obligation counter-starts-at-zero-once-per-document)
+        return sweep(fmt, ("numbering",), max_units=1)
+    if "/numbering#" in ob:
+        # the number an image carries: documents whose pictures are all present, one unit (gaps and restarts have their own obligations)
+        return sweep(fmt, ("numbering",), max_units=1, kinds=("embedded",))
     if "/pixel-size#" in ob:
         return witness("pixel-size", fmt)
     if "/order#" in ob:
@@ -1049,14 +1053,14 @@ def search(ob, wit=None):
     return None
 
 
-def sweep(fmt, aspects, seeds=(0, 1), count=25):
+def sweep(fmt, aspects, seeds=(0, 1), count=25, max_units=3, kinds=("embedded", "missing", "external")):
     if fmt is None:
         return None
     if fmt == "pdf":
         return first_failure([pdf_scenario([[(30, 20), (10, 11)]]), pdf_scenario([[(5, 6)]])], aspects)
     styles = ("relative",) if fmt in ("odt", "odp", "ods", "odg") else ("relative", "parent", "absolute", "dot")
     for seed in seeds:
-        r = first_failure(gen_scenarios(fmt, seed, count, styles=styles), aspects, dedup=fmt in ("odt", "odg"))
+        r = first_failure(gen_scenarios(fmt, seed, count, styles=styles, max_units=max_units, kinds=kinds), aspects, dedup=fmt in ("odt", "odg"))
         if r:
             return r
     return None
